@@ -636,6 +636,7 @@ func c12GenProg(r *vrng) []byte {
 type c12Case struct {
 	id     string
 	tables []c12Input
+	cont   bool // one Parser for all tables, also after a rejected one
 }
 type c12Input struct {
 	base  int
@@ -666,7 +667,7 @@ func TestVerifC12(t *testing.T) {
 	}
 	var cases []c12Case
 	raw := func(id string, b []byte) {
-		cases = append(cases, c12Case{id, []c12Input{{empty, []amlEdit{{kind: 'i', off: 0, data: b}}}}})
+		cases = append(cases, c12Case{id: id, tables: []c12Input{{empty, []amlEdit{{kind: 'i', off: 0, data: b}}}}})
 	}
 
 	// ---- deterministic boundary list (independent of the seed)
@@ -734,9 +735,9 @@ func TestVerifC12(t *testing.T) {
 	}
 	// shipped tables: alone, and DSDT followed by SSDT in one tree
 	for i, k := range shipIdx {
-		cases = append(cases, c12Case{fmt.Sprintf("ship-%d", i), []c12Input{{k, nil}}})
+		cases = append(cases, c12Case{id: fmt.Sprintf("ship-%d", i), tables: []c12Input{{k, nil}}})
 	}
-	cases = append(cases, c12Case{"ship-dsdt-ssdt", []c12Input{{shipIdx[0], nil}, {shipIdx[1], nil}}})
+	cases = append(cases, c12Case{id: "ship-dsdt-ssdt", tables: []c12Input{{shipIdx[0], nil}, {shipIdx[1], nil}}})
 	// every truncation of the small shipped tables (sampled for the large one)
 	for _, k := range shipIdx {
 		L := len(bases[k].payload)
@@ -750,8 +751,44 @@ func TestVerifC12(t *testing.T) {
 			step = 3
 		}
 		for cut := 0; cut < L; cut += step {
-			cases = append(cases, c12Case{fmt.Sprintf("trunc-%d-%d", k, cut), []c12Input{{k, []amlEdit{{kind: 't', off: cut}}}}})
+			cases = append(cases, c12Case{id: fmt.Sprintf("trunc-%d-%d", k, cut), tables: []c12Input{{k, []amlEdit{{kind: 't', off: cut}}}}})
 		}
+	}
+
+	// histories on ONE Parser in which an earlier table is rejected at a given stage and further tables follow
+	// (seeded change E: whatever a rejected table leaves in the Parser must not leak into the next parse)
+	stageFail := map[string][]byte{
+		"firstpass-trunc-scope":   {0x10, 0x0a, 0x5c, 0x5f, 0x53, 0x42, 0x5f, 0x08},                                  // Scope(\_SB_){ Name( <eof>
+		"firstpass-nested-device": {0x5b, 0x82, 0x0f, 0x44, 0x45, 0x56, 0x30, 0x5b, 0x82, 0x08, 0x44, 0x45, 0x56, 0x31, 0x08, 0x41}, // Device{Device{Name(A<eof>
+		"firstpass-bad-opcode":    {0x10, 0x06, 0x5c, 0x5f, 0x53, 0x42, 0x5f, 0xfe},
+		"deferred-scope-deeper":   {0xa2, 0x09, 0x01, 0xa0, 0x02, 0x01, 0x5a, 0x5a, 0x5a, 0x5a},                     // While(One){If(One){} ZZZZ}
+		"deferred-nested-if":      {0xa2, 0x0d, 0x01, 0xa0, 0x06, 0x01, 0xa0, 0x02, 0x01, 0x5a, 0x5a, 0x5a, 0x5a, 0x5a}, // While{If{If{}} ZZZZ Z}
+		"deferred-method-while":   {0x14, 0x12, 0x4d, 0x30, 0x30, 0x30, 0x00, 0xa2, 0x0a, 0x01, 0xa0, 0x03, 0x01, 0xa3, 0x5a, 0x5a, 0x5a, 0x5a, 0xa3},
+		"deferred-buffer-bad":     {0x08, 0x42, 0x55, 0x46, 0x30, 0x11, 0x05, 0x5a, 0x5a, 0x5a, 0x5a},                 // Name(BUF0, Buffer(ZZZZ){})
+		"resolve-scope-missing":   {0x10, 0x06, 0x5c, 0x58, 0x58, 0x58, 0x58},                                           // Scope(\XXXX){}
+		"relocate-missing":        {0x5b, 0x82, 0x0a, 0x5c, 0x2e, 0x59, 0x59, 0x59, 0x59, 0x44, 0x45, 0x56, 0x30},   // Device(\YYYY.DEV0){}
+	}
+	followUps := [][]byte{
+		{}, // empty table
+		{0x08, 0x46, 0x4f, 0x4f, 0x5f, 0x01},                                     // Name(FOO_, One)
+		{0x10, 0x0c, 0x5c, 0x5f, 0x53, 0x42, 0x5f, 0x08, 0x42, 0x41, 0x52, 0x5f, 0x00}, // Scope(\_SB_){Name(BAR_, Zero)}
+		{0x14, 0x09, 0x4d, 0x54, 0x48, 0x39, 0x00, 0xa2, 0x03, 0x01, 0xa3},       // Method(MTH9){While(One){Noop}}
+	}
+	var failBases []int
+	var failNames []string
+	for nm := range stageFail {
+		failNames = append(failNames, nm)
+	}
+	sortStrings(failNames)
+	for _, nm := range failNames {
+		fb := addBase(stageFail[nm])
+		failBases = append(failBases, fb)
+		for fi, fu := range followUps {
+			ub := addBase(fu)
+			cases = append(cases, c12Case{id: fmt.Sprintf("hist-%s-%d", nm, fi), tables: []c12Input{{fb, nil}, {ub, nil}}, cont: true})
+		}
+		// two rejected tables in a row, then a good one
+		cases = append(cases, c12Case{id: "hist2-" + nm, tables: []c12Input{{fb, nil}, {failBases[0], nil}, {addBase(followUps[1]), nil}}, cont: true})
 	}
 
 	// ---- seeded cases
@@ -776,9 +813,9 @@ func TestVerifC12(t *testing.T) {
 			pb := addBase(c12GenProg(r))
 			progBases = append(progBases, pb)
 			if r.chance(10) {
-				cases = append(cases, c12Case{id, []c12Input{{shipIdx[1+r.intn(2)], nil}, {pb, nil}}})
+				cases = append(cases, c12Case{id: id, tables: []c12Input{{shipIdx[1+r.intn(2)], nil}, {pb, nil}}})
 			} else {
-				cases = append(cases, c12Case{id, []c12Input{{pb, nil}}})
+				cases = append(cases, c12Case{id: id, tables: []c12Input{{pb, nil}}})
 			}
 		case k < 15: // mutated generated program
 			var pb int
@@ -788,19 +825,46 @@ func TestVerifC12(t *testing.T) {
 				pb = addBase(c12GenProg(r))
 				progBases = append(progBases, pb)
 			}
-			cases = append(cases, c12Case{id, []c12Input{{pb, c12Mutate(r, bases, pb)}}})
-		case k < 19: // mutated small shipped table
+			cases = append(cases, c12Case{id: id, tables: []c12Input{{pb, c12Mutate(r, bases, pb)}}})
+		case k < 17: // mutated small shipped table
 			pb := shipIdx[1+r.intn(2)]
-			cases = append(cases, c12Case{id, []c12Input{{pb, c12Mutate(r, bases, pb)}}})
+			cases = append(cases, c12Case{id: id, tables: []c12Input{{pb, c12Mutate(r, bases, pb)}}})
+		case k < 19: // history on one Parser: a (probably rejected) table, then one or two more tables
+			var first c12Input
+			switch r.intn(3) {
+			case 0:
+				first = c12Input{failBases[r.intn(len(failBases))], nil}
+			case 1:
+				fb := failBases[r.intn(len(failBases))]
+				first = c12Input{fb, c12Mutate(r, bases, fb)}
+			default:
+				pb := addBase(c12GenProg(r))
+				progBases = append(progBases, pb)
+				first = c12Input{pb, c12Mutate(r, bases, pb)}
+			}
+			tabs := []c12Input{first}
+			for more := 1 + r.intn(2); more > 0; more-- {
+				if r.chance(40) {
+					tabs = append(tabs, c12Input{addBase(followUps[r.intn(len(followUps))]), nil})
+				} else if r.chance(50) {
+					fb := failBases[r.intn(len(failBases))]
+					tabs = append(tabs, c12Input{fb, nil})
+				} else {
+					pb := addBase(c12GenProg(r))
+					progBases = append(progBases, pb)
+					tabs = append(tabs, c12Input{pb, nil})
+				}
+			}
+			cases = append(cases, c12Case{id: id, tables: tabs, cont: true})
 		default: // mutated DSDT (large: fewer of them)
-			cases = append(cases, c12Case{id, []c12Input{{shipIdx[0], c12Mutate(r, bases, shipIdx[0])}}})
+			cases = append(cases, c12Case{id: id, tables: []c12Input{{shipIdx[0], c12Mutate(r, bases, shipIdx[0])}}})
 		}
 	}
 
 	// ---- run everything in child processes
 	items := make([]*amlItem, len(cases))
 	for i, c := range cases {
-		it := &amlItem{id: c.id}
+		it := &amlItem{id: c.id, contErr: c.cont}
 		for _, in := range c.tables {
 			it.tables = append(it.tables, amlApplyEdits(bases[in.base].payload, in.edits))
 		}
